@@ -96,6 +96,19 @@ def _exercise(report, lab, lean, n_sets, seed):
                     rc, err = lab.run_cpp(pname, "b", "b", inp, oute, bufs, empty_batches=True)
                     report.count("runs.cpp.empty-batches")
                     _judge(report, lab, lean, pj, vals, "cpp", rc, err, oute, dict(ctx, cpp_mode="empty batches interleaved"), None, None, None)
+                if sidx:
+                    # the vector handed to every batch read still holds items of an earlier call (between 0 and its capacity): what is read must not depend on it
+                    outp = lab.tmp(".cpp-pf.bin")
+                    rc, err = lab.run_cpp(pname, "b", "b", inp, outp, bufs, prefill=True)
+                    report.count("runs.cpp.prefilled-batch-vector")
+                    _judge(report, lab, lean, pj, vals, "cpp", rc, err, outp, dict(ctx, cpp_mode="batch vector not empty on entry (stale items of earlier calls)"), None, None, None)
+                    if lab.ndjson and variant == 1:
+                        midp, outq = lab.tmp(".cpp-pf.ndjson"), lab.tmp(".cpp-pf-ndjson.bin")
+                        rc, err = lab.run_cpp(pname, "b", "j", inp, midp, bufs)
+                        if rc == 0:
+                            rc, err = lab.run_cpp(pname, "j", "b", midp, outq, bufs, prefill=True)
+                        report.count("runs.cpp.prefilled-batch-vector.ndjson")
+                        _judge(report, lab, lean, pj, vals, "cpp", rc, err, outq, dict(ctx, cpp_mode="NDJSON read, batch vector not empty on entry"), None, None, None)
                 if lab.ndjson and variant == 0:
                     # through NDJSON and back, the lines read in batches: an item must not depend on the item read before it
                     mid, outj = lab.tmp(".cpp.ndjson"), lab.tmp(".cpp-ndjson.bin")
